@@ -44,7 +44,7 @@ Inductive itk := KInc | KDec | KAdd | KSub.
 
 Inductive op :=
 | OAsgC (cs : list byte) | OAsgS (x : list byte) | OAsgFs
-| OCtorC (cs : list byte) | OCtorS (x : list byte) | OCtorMv | OCtorCp
+| OCtorC (cs : list byte) | OCtorS (x : list byte) | OCtorMv | OCtorCp | OCtorFs
 | OInsNC (i c ch : N) | OInsPC (i : N) (cs : list byte) (k : N) | OInsC (i : N) (cs : list byte)
 | OInsS (i : N) (x : list byte) | OInsSS (i : N) (x : list byte) (is k : N)
 | OInsFs (i : N) | OInsFss (i is k : N) | OInsIt (p ch : N) | OInsItN (p c ch : N)
@@ -623,6 +623,7 @@ Definition step (s o : fs) (x : op) : res (fs * fs * ret) :=
   | OCtorS x => upd o (assign_arr zero_fs (carr x) (nlen x))
   | OCtorMv => upd o (ctor_mv o)
   | OCtorCp => upd o (Ok o)
+  | OCtorFs => upd o (assign_arr zero_fs (buf o) (len o))
   | OInsNC i c ch => upd o (insert_nc s i c ch)
   | OInsPC i cs k => upd o (insert_pc s i (carr cs) k)
   | OInsC i cs => upd o (insert_pc s i (carr cs) (cstrlen cs))
@@ -702,6 +703,20 @@ Definition pre_A (s o : fs) (x : op) : bool :=
   end.
 
 End FS.
+
+(** The other object may be a FixedString of a different capacity S.  The
+    operations that exist only between objects of the same type (move / copy
+    constructor, swap, append( first, last) with const_iterators, the find family
+    with a FixedString needle) are then not available; the converting constructor
+    FixedString( const FixedString< S>&) is chosen only when S differs. *)
+Definition mixed_ok (x : op) : bool :=
+  match x with
+  | OCtorMv | OCtorCp | OSwap | OAppIt _ _ | OFind _ FFs _ => false
+  | _ => true
+  end.
+
+Definition cap_ok (same : bool) (x : op) : bool :=
+  if same then (match x with OCtorFs => false | _ => true end) else mixed_ok x.
 
 (** constructor from a C string on a fresh object (used for the initial states) *)
 Definition fs_init (L : N) (cs : list byte) : res fs :=
